@@ -253,7 +253,11 @@ def check(case, ctx):
         ok, m = True, None
         ctx.count("skipped:sensitization_with_x_in_scope")
     else:
-        ok, m = ctx.call(cg.tx.sensitization_transform, c, n, eps)
+        eps_passed = list(eps) if isinstance(eps, list) else eps
+        ok, m = ctx.call(cg.tx.sensitization_transform, c, n, eps_passed)
+        if eps_passed != eps:
+            ctx.violation("sensitization_modified_endpoints", f"sensitization_transform({n!r},{eps!r}) changed the caller's endpoint list to {eps_passed}")
+            return
     if m is None and ok:
         pass
     elif not ok:
@@ -333,7 +337,11 @@ def check(case, ctx):
     if xs:
         ok, r = True, "skipped"  # sensitize looks at every output: the `x` node is in its scope
     else:
-        ok, r = ctx.call(cg.props.sensitize, c, n, dict(A) if A else None)
+        a_passed = dict(A) if A else None
+        ok, r = ctx.call(cg.props.sensitize, c, n, a_passed)
+        if A and a_passed != A:
+            ctx.violation("sensitize_modified_assumptions", f"sensitize({n!r},{A}) changed the caller's assumptions dict to {a_passed}")
+            return
         ctx.count("cmp:sensitize")
     if r == "skipped":
         pass
